@@ -105,6 +105,128 @@ def handleMania : List String → String
     else "PANIC"
   | _ => "bad-args"
 
+/-! ## the exact instance (core `Rat`), for the f64-vs-exact gap measurement of C13
+
+`ratOps` is the ordered-field instance `fieldOps 2` of `Lemmas/GenStateExact.lean` at `K = ℚ`
+(`Lemmas/GenStateExactRat.lean` proves the equality), i.e. the instance the C13 optimality theorems
+are about, made executable.  A `GSQ` line has the arguments of the `GS` line; the response is
+  `misses judged |acc − accuracy(exact-instance state)| |acc − accuracy(Float-instance state)|`
+with both distances as reduced fractions `n/d`. -/
+
+instance ratOps : NumOps Rat where
+  ofNat := fun n => (n : Rat)
+  add := (· + ·)
+  sub := (· - ·)
+  mul := (· * ·)
+  div := (· / ·)
+  abs := fun a => if a < 0 then -a else a
+  lt := fun a b => decide (a < b)
+  floorU32 := fun x => min (Rat.floor x).toNat u32Max
+  ceilU32 := fun x => min (-(Rat.floor (-x))).toNat u32Max
+  maxVal := 2
+  infVal := 2
+
+/-- the rational value of a finite double given by its bit pattern -/
+def ratOfBits (b : Nat) : Rat :=
+  let frac : Nat := b % 2 ^ 52
+  let exp : Nat := (b / 2 ^ 52) % 2048
+  let neg := b / 2 ^ 63 % 2 == 1
+  let m : Nat := if exp == 0 then frac else frac + 2 ^ 52
+  let e : Int := if exp == 0 then -1074 else (exp : Int) - 1075
+  let v : Rat := if e ≥ 0 then ((m * 2 ^ e.toNat : Nat) : Rat) else mkRat m (2 ^ (-e).toNat)
+  if neg then -v else v
+
+def optRat (s : String) : Option Rat :=
+  if s == "-" || s == "" then none else some (ratOfBits (hexNat s))
+
+def fmtRat (q : Rat) : String := s!"{q.num}/{q.den}"
+
+/-- `|acc − num/den|` -/
+def ratDist (acc : Option Rat) (num den : Nat) : String :=
+  if den == 0 then "den0"
+  else
+    let d : Rat := acc.getD 0 - mkRat num den
+    fmtRat (if d < 0 then -d else d)
+
+def handleOsuQ : List String → String
+  | [mc, no, ns, nlt, passed, lazer, nsha, prio, acc, combo, lt, st, se, n300, n100, n50, misses] =>
+    let c : OsuCfg := {
+      maxCombo := nat! mc, nObjects := nat! no, nSliders := nat! ns,
+      nLargeTicks := nat! nlt, passed := optNat passed, lazer := bool! lazer,
+      noSliderHeadAcc := bool! nsha, prio := parsePrio prio }
+    let mk := fun {R : Type} (a : Option R) => ({
+      acc := a, combo := optNat combo, largeTickHits := optNat lt,
+      smallTickHits := optNat st, sliderEndHits := optNat se, n300 := optNat n300,
+      n100 := optNat n100, n50 := optNat n50, misses := optNat misses } : OsuB R)
+    let q := osuGenRaw c (mk (optRat acc))
+    let f := osuGenRaw c (mk (optFloat acc))
+    let origin := (osuSliderParts c (mk (optRat acc))).1
+    let dist := fun (s : OsuState) =>
+      ratDist (optRat acc) (osuAccNum origin s.n300 s.n100 s.n50 s.largeTickHits s.smallTickHits s.sliderEndHits)
+        (osuAccDen origin s.n300 s.n100 s.n50 s.misses)
+    if q.ok && f.ok then
+      s!"{q.state.misses} {q.state.n300 + q.state.n100 + q.state.n50 + q.state.misses} {dist q.state} {dist f.state}"
+    else "PANIC"
+  | _ => "bad-args"
+
+def handleTaikoQ : List String → String
+  | [mc, passed, prio, acc, combo, n300, n100, misses] =>
+    let c : TaikoCfg := {
+      maxCombo := nat! mc, passed := optNat passed, prio := parsePrio prio }
+    let mk := fun {R : Type} (a : Option R) => ({
+      acc := a, combo := optNat combo, n300 := optNat n300,
+      n100 := optNat n100, misses := optNat misses } : TaikoB R)
+    let q := taikoGenRaw c (mk (optRat acc))
+    let f := taikoGenRaw c (mk (optFloat acc))
+    let dist := fun (s : TaikoState) =>
+      ratDist (optRat acc) (2 * s.n300 + s.n100) (2 * (s.n300 + s.n100 + s.misses))
+    if q.ok && f.ok then
+      s!"{q.state.misses} {q.state.n300 + q.state.n100 + q.state.misses} {dist q.state} {dist f.state}"
+    else "PANIC"
+  | _ => "bad-args"
+
+def handleCatchQ : List String → String
+  | [f, d, t, acc, combo, fruits, droplets, tiny, tinyMisses, misses] =>
+    let c : CatchCfg := {
+      nFruits := nat! f, nDroplets := nat! d, nTiny := nat! t }
+    let mk := fun {R : Type} (a : Option R) => ({
+      acc := a, combo := optNat combo, fruits := optNat fruits,
+      droplets := optNat droplets, tiny := optNat tiny, tinyMisses := optNat tinyMisses,
+      misses := optNat misses } : CatchB R)
+    let q := catchGenRaw c (mk (optRat acc))
+    let fl := catchGenRaw c (mk (optFloat acc))
+    let dist := fun (s : CatchState) =>
+      ratDist (optRat acc) (s.fruits + s.droplets + s.tiny)
+        (s.fruits + s.droplets + s.tiny + s.tinyMisses + s.misses)
+    if q.ok && fl.ok then
+      s!"{q.state.misses} {q.state.fruits + q.state.droplets + q.state.misses + q.state.tiny + q.state.tinyMisses} {dist q.state} {dist fl.state}"
+    else "PANIC"
+  | _ => "bad-args"
+
+def handleManiaQ : List String → String
+  | [no, nh, passed, classic, prio, acc, n320, n300, n200, n100, n50, misses] =>
+    let c : ManiaCfg := {
+      nObjects := nat! no, nHoldNotes := nat! nh, passed := optNat passed,
+      classic := bool! classic, prio := parsePrio prio }
+    let mk := fun {R : Type} (a : Option R) => ({
+      acc := a, n320 := optNat n320, n300 := optNat n300,
+      n200 := optNat n200, n100 := optNat n100, n50 := optNat n50, misses := optNat misses } : ManiaB R)
+    let q := maniaGenRaw c (mk (optRat acc))
+    let f := maniaGenRaw c (mk (optFloat acc))
+    let dist := fun (s : ManiaState) =>
+      ratDist (optRat acc) (maniaAccNum c.classic s) ((if c.classic then 60 else 61) * s.totalHits)
+    if q.ok && f.ok then
+      s!"{q.state.misses} {q.state.totalHits} {dist q.state} {dist f.state}"
+    else "PANIC"
+  | _ => "bad-args"
+
+def handleGSQ (mode : String) (args : List String) : String :=
+  if mode == "osu" then handleOsuQ args
+  else if mode == "taiko" then handleTaikoQ args
+  else if mode == "catch" then handleCatchQ args
+  else if mode == "mania" then handleManiaQ args
+  else "bad-mode"
+
 def handleGS (mode : String) (args : List String) : String :=
   if mode == "osu" then handleOsu args
   else if mode == "taiko" then handleTaiko args
